@@ -490,3 +490,82 @@ def call_arg(call, func, name):
         if idx < len(call.args) and not any(isinstance(a, ast.Starred) for a in call.args[:idx + 1]):
             return call.args[idx]
     return None
+
+
+# ------------------------------------------------------------ alpha renaming
+def local_names(fn):
+    """Locals of ``fn`` (assigned names that are not parameters), in order of
+    their first binding occurrence in the source."""
+    params = set(func_params(fn))
+    if fn.args.vararg:
+        params.add(fn.args.vararg.arg)
+    if fn.args.kwarg:
+        params.add(fn.args.kwarg.arg)
+    order = []
+    declared_global = set()
+    for node in ast.walk(fn):
+        if isinstance(node, (ast.Global, ast.Nonlocal)):
+            declared_global.update(node.names)
+    stores = []
+    for node in ast.walk(fn):
+        if isinstance(node, ast.Name) and isinstance(node.ctx, (ast.Store, ast.Del)):
+            stores.append(node)
+        elif isinstance(node, ast.ExceptHandler) and node.name:
+            stores.append(node)
+    stores.sort(key=lambda n: (getattr(n, 'lineno', 0), getattr(n, 'col_offset', 0)))
+    for node in stores:
+        name = node.id if isinstance(node, ast.Name) else node.name
+        if name not in params and name not in declared_global and name not in order:
+            order.append(name)
+    return order
+
+
+def alpha_map(fn):
+    cache = getattr(fn, '_alpha_map', None)
+    if cache is None:
+        cache = {name: 'L%d' % (i + 1) for i, name in enumerate(local_names(fn))}
+        try:
+            fn._alpha_map = cache
+        except AttributeError:
+            pass
+    return cache
+
+
+def anorm(node, fn=None):
+    """Normalised text with the locals of the enclosing function replaced by
+    positional placeholders (L1, L2, ... in order of first binding), so that a
+    consistent renaming of locals does not change the text."""
+    if fn is None:
+        fn = node if isinstance(node, (ast.FunctionDef, ast.AsyncFunctionDef)) \
+            else enclosing_function(node)
+        while fn is not None and not hasattr(fn, '_qualname'):
+            nxt = enclosing_function(fn)
+            if nxt is None:
+                break
+            fn = nxt
+    if fn is None:
+        return norm(node)
+    mapping = alpha_map(fn)
+    if not mapping:
+        return norm(node)
+
+    def clone(n):
+        if isinstance(n, ast.AST):
+            new = type(n)()
+            for field in n._fields:
+                if hasattr(n, field):
+                    setattr(new, field, clone(getattr(n, field)))
+            for attr in n._attributes:
+                if hasattr(n, attr):
+                    setattr(new, attr, getattr(n, attr))
+            if isinstance(new, ast.Name) and new.id in mapping:
+                new.id = mapping[new.id]
+            if isinstance(new, ast.ExceptHandler) and new.name in mapping:
+                new.name = mapping[new.name]
+            return new
+        if isinstance(n, list):
+            return [clone(x) for x in n]
+        return n
+    if isinstance(node, list):
+        return '; '.join(norm(clone(x)) for x in node)
+    return norm(clone(node))
